@@ -107,8 +107,20 @@ PROPS['C07'] = dict(coq=['Properties/C07.v'], **hist_prop(
     'C07', {'C07'}, W(remove=12, clear=0.5, umatch=1), 1500, 40000, hg={'odd': 'mix'}))
 PROPS['C08'] = dict(coq=['Properties/C08.v'], **hist_prop(
     'C08', {'C08'}, None, 1200, 30000, steps_q=12, steps_t=40, hg={'odd': 'mix'}))
+def _c09_esc(rep, rng, tier, term):
+    """histories whose TEXTS carry pieces of control sequences (U+001B in the base text: complete non-SGR sequences, text that
+    spells an SGR sequence, unterminated introducers; through the constructor, assign_str, concatenation, case conversion):
+    every operation must treat such a text as the characters it consists of - implementation against model after every step,
+    and the C09 clauses (termination, documented errors, self-check, later operations).  The display oracles of the other
+    properties are not applied to these values (K1)."""
+    n = 500 if tier == 'quick' else 15000
+    ov, dv = runner.explore(rep, {'C09'}, n, 12, rng.randrange(1 << 30), {'weights': None, 'esc': 0.5, 'odd': 'mix', 'bad': 'mix'}, term=term)
+    rep.bump('histories over texts with U+001B', n)
+    return ov, dv
+
+
 PROPS['C09'] = dict(coq=['Properties/C09.v'], **hist_prop(
-    'C09', {'C09'}, None, 1200, 30000, steps_q=12, steps_t=40, hg={'odd': 'mix', 'bad': 'mix'}))
+    'C09', {'C09'}, None, 1200, 30000, steps_q=12, steps_t=40, hg={'odd': 'mix', 'bad': 'mix'}, extra=_c09_esc))
 PROPS['C11'] = dict(coq=['Properties/C11.v'], **hist_prop(
     'C11', {'C11'}, W(split=5, splitlines=2, partition=3, strip=3, removeprefix=1.5, removesuffix=1.5, case=2, assign=3,
                       replace=6, expandtabs=1), 1500, 40000, hg={'odd': 'mix'}))
@@ -119,7 +131,7 @@ PROPS['C17'] = dict(coq=['Properties/C17.v'], **hist_prop(
 PROPS['C01'] = dict(coq=['Properties/C01.v'], **hist_prop(
     'C01', {'C01'}, W(tostr=2), 1200, 30000, hg={'odd': False}))
 PROPS['C15'] = dict(coq=['Properties/C15.v'], **hist_prop(
-    'C15', {'C15'}, W(tostr=1), 1000, 30000, hg={'odd': True}))
+    'C15', {'C15'}, W(tostr=1), 1000, 30000, hg={'odd': True, 'esc': 0.2}))
 
 
 # ---------------------------------------------------------------- direct explorations (harness/direct2.py)
